@@ -253,6 +253,17 @@ func envVariant(rng *rand.Rand, g *GenSpec, w *World) {
 	g.Patterns = patternVariants(rng, w, 1)[0]
 	g.Plan.Clock = 1_600_000_000 + int64(rng.IntN(1_000_000))
 	g.Plan.Pid = 1000 + rng.IntN(30000)
+	if rng.IntN(2) == 0 {
+		g.Env = map[string]string{
+			"USER":     []string{"alice", "bob", "root"}[rng.IntN(3)],
+			"LOGNAME":  []string{"alice", "bob"}[rng.IntN(2)],
+			"LANG":     []string{"C", "en_US.UTF-8", "de_DE.UTF-8"}[rng.IntN(3)],
+			"TZ":       []string{"UTC", "Asia/Tokyo", "America/New_York"}[rng.IntN(3)],
+			"HOSTNAME": []string{"ci-runner-7", "laptop"}[rng.IntN(2)],
+			"HOME":     []string{"/tmp", "/root", "/nonexistent-home"}[rng.IntN(3)],
+			"CI":       []string{"", "true"}[rng.IntN(2)],
+		}
+	}
 }
 
 func genOp(g *GenSpec) Op { return Op{Kind: "gen", Gen: g} }
